@@ -284,8 +284,9 @@ def targeted(rng, n):
                 h = rng.choice(sorted(sim.T))
                 st = ("tR", h, level_rule(rng, sim.T[h], fam + 1))
                 sim.apply(st); steps.append(st)
-                if rng.random() < 0.3:
-                    h2 = rng.choice([x for x in range(6) if x not in sim.T]); st = ("tC", h2, rng.choice(sorted(sim.T))); sim.apply(st); steps.append(st)
+                free = [x for x in range(6) if x not in sim.T]
+                if free and rng.random() < 0.3:
+                    h2 = rng.choice(free); st = ("tC", h2, rng.choice(sorted(sim.T))); sim.apply(st); steps.append(st)
         elif fam == 3:
             # Clear / EraseFinalStates / SetStateFinal / AreTransitionsEmpty on shared storage, then refill
             steps = build_tree(rng, 0) + [("tC", 1, 0)]
